@@ -6,7 +6,7 @@
    Executable model, no proofs. *)
 From Coq Require Import String.  (* first: List (through Base) must shadow String.length etc. *)
 From Dht Require Import Base Msg Compact Bencode.
-From DhtGen Require Import Params KrpcSchema.
+From DhtGen Require Import KrpcSchema.
 Close Scope string_scope.    (* the generated files open it; here `++` is list append *)
 
 
